@@ -78,7 +78,10 @@ def run_script(kind, script):
     s.probe_delivered = None
     s.notes = []
 
-    async def wait_link(n, limit=200.0):
+    async def wait_link(n, limit=None):
+        if limit is None:
+            # the retry delay is capped: every refusal costs at most ~10 virtual s
+            limit = 200.0 + 11.0 * max([script["initial_refusals"]] + [ep["refusals"] for ep in script["episodes"]])
         t0 = s.loop.time()
         while len(s.gw.links) <= n:
             if s.loop.time() - t0 > limit:
@@ -114,6 +117,14 @@ def run_script(kind, script):
     async def main(s):
         c = s.make_client()
         asyncio.ensure_future(c.connect())
+        for t in script.get("companion_connects", ()):
+            # another client of the same process (its own gateway accepts at once) connects while this one may be backing off
+            comp = s.add_companion(kind)
+
+            async def later(t=t, comp=comp):
+                await asyncio.sleep(t)
+                await comp.make_client().connect()
+            asyncio.ensure_future(later())
         for n, ep in enumerate(script["episodes"]):
             link = await wait_link(n)
             if link is None:
@@ -139,9 +150,12 @@ def run_script(kind, script):
             s.probe_delivered = len(s.received) > before
         s.final_state = c.state.name
         await c.close()
+        for comp in s.companions:
+            if comp.client is not None:
+                await comp.client.close()
         await asyncio.sleep(0.2)
 
-    outcome = s.run(main)
+    outcome = s.run(main, max_steps=400_000 + 400 * max([script["initial_refusals"]] + [ep["refusals"] for ep in script["episodes"]]))
     return outcome, s
 
 
@@ -247,7 +261,31 @@ def _enumerate(ctx: Ctx, item):
     ctx.klass(f"enumerated:{kind}:{fault}", len(steps) * 2)
 
 
+def _special(ctx: Ctx, item):
+    """Long outages (more than a thousand refused attempts in a row) and a second client of the process connecting while the first
+    one is backing off."""
+    kind, what = item
+    if what == "long":
+        variants = [{"initial_refusals": 1100, "episodes": [], "status_mode": "plain"},
+                    {"initial_refusals": 0, "status_mode": "plain",
+                     "episodes": [{"fault": "eof", "at": ("time", 0.5), "mid_packet": False, "refusals": 1100, "connect_error": False}]}]
+    else:
+        variants = [{"initial_refusals": r, "episodes": eps, "status_mode": "plain", "companion_connects": cc}
+                    for r in (3, 6)
+                    for cc in ([0.2], [0.75, 2.0], [4.0, 9.0])
+                    for eps in ([], [{"fault": "eof", "at": ("time", 0.5), "mid_packet": False, "refusals": 4, "connect_error": False}])]
+    for script in variants:
+        ctx.count()
+        ctx.nontrivial_extra += 1
+        ctx.klass("long_outage" if what == "long" else "second_client_connects_during_backoff")
+        outcome, s = run_script(kind, script)
+        for b, w, c in evaluate(kind, script, outcome, s):
+            ctx.report(b + ("|long-outage" if what == "long" else "|second-client"), w, c)
+
+
 def run(ctx: Ctx):
+    import os
+    pmap(ctx, _special, [(k, w) for k in aio.CLIENT_KINDS for w in (("companion",) if os.environ.get("VF_SUBPASS") else ("companion", "long"))])
     n = 25 if ctx.quick else 2500
     pmap(ctx, _work, [(k, n) for k in aio.CLIENT_KINDS for _ in range(4)])
     ks = range(0, 12) if ctx.quick else range(0, 160)
@@ -268,4 +306,9 @@ def replay(ctx: Ctx, case):
     for ep in script["episodes"]:
         ep["at"] = tuple(ep["at"])
     outcome, s = run_script(case["client"], script)
-    return evaluate(case["client"], script, outcome, s)
+    res = evaluate(case["client"], script, outcome, s)
+    if script.get("companion_connects"):
+        res = [(b + "|second-client", w, c) for b, w, c in res]
+    elif max([script["initial_refusals"]] + [ep["refusals"] for ep in script["episodes"]]) >= 1000:
+        res = [(b + "|long-outage", w, c) for b, w, c in res]
+    return res
